@@ -537,11 +537,11 @@ class HistoryWorld:
             "stubs": ["memo tables wrapped in FlakyDict (forced misses)",
                       "ParserHelper.from_string lru re-wrapped with a per-run size; the oracle registry uses a separate lru"],
             "assumptions": [
-                "sampling, not enumeration", "float registries compare with relative tolerance 1e-9 (DESIGN.md O4)",
+                "sampling, not enumeration", "floats of the history-laden and of the pristine registry are compared bit for bit (VERIF_C13_REL=0); open finding R6 is recognised by its exact shape and such answers are not judged further",
                 "the pristine oracle registry is built in the same process and hash seed; pattern_to_regex and "
                 "_split_format lru caches are shared between the live and the oracle registries",
                 "definitions are not added while a redefining context is active (DESIGN.md O3)",
-                "redefinition of an existing name is not generated: the property speaks of additions",
+                "redefinition of an existing name is not generated: the property speaks of additions (the canonical name of an implicitly registered prefixed unit, and a case twin of an existing unit in a case-insensitive registry, are additions and are generated)",
             ],
         }
 
